@@ -925,6 +925,9 @@ func (e *Engine) evalCall(st *State, env *cenv, x *CExpr) (Val, error) {
 		if v.K == KSlice {
 			t = v.Base
 		}
+		if v.K == KIface { // a boxed pointer: the object it points to
+			t = "(iaddr " + v.T + ")"
+		}
 		return Val{K: KBool, T: "(< (root " + t + ") 0)"}, nil
 	case "visited": // visited(m, k): the range loop over map m has already produced key k
 		v, err := e.evalC(st, env, args[0])
